@@ -291,6 +291,9 @@ APR = "pabutools/election/profile/approvalprofile.py"
 SATM = "pabutools/election/satisfaction/satisfactionmeasure.py"
 SATP = "pabutools/election/satisfaction/satisfactionprofile.py"
 PROF = "pabutools/election/profile/profile.py"
+APB = "pabutools/election/ballot/approvalballot.py"
+CDB = "pabutools/election/ballot/cardinalballot.py"
+ODB = "pabutools/election/ballot/ordinalballot.py"
 
 IN_B = {"int(project in ballot)": "inB", "project.cost": "cost"}
 
@@ -344,6 +347,20 @@ def ret(path, qual, k, env, n_returns=None, bools=()):
         if len(rs) <= k:
             raise TranslationError(f"no return #{k} in {qual}")
         return Tr(env, bools).cond(src.touch(rs[k]))
+    return go
+
+
+def retexpr(path, qual, k, env, n_returns=None, bools=()):
+    """the value of the k-th `return` of `qual` as an expression; `n_returns`: the function must have exactly that many"""
+
+    def go():
+        src = Src(path)
+        rs = src.returns(qual)
+        if n_returns is not None and len(rs) != n_returns:
+            raise TranslationError(f"{qual} has {len(rs)} return statements, {n_returns} expected")
+        if len(rs) <= k:
+            raise TranslationError(f"no return #{k} in {qual}")
+        return Tr(env, bools).expr(src.touch(rs[k]))
     return go
 
 
@@ -664,6 +681,16 @@ LEAVES = [
      whole(SAT, "additive_card_relative_sat_func", {"ballot.get(project, 0)": "score", PV("max_budget_allocation_score"): "norm"})),
     ("C10", "bordaSat", "(inBallot : Bool) (len pos : Rat)", "Rat",
      whole(POS, "borda_sat_func", {"project in ballot": "inBallot", "len(ballot)": "len", "ballot.position(project)": "pos"}, bools=("inBallot",))),
+    # ---- C16: what a frozen ballot is made of, and what it hashes (shape leaves: every function is ONE return of exactly this form)
+    ("C16", "approvalFrozenItems", "(sortedApproved : List Nat)", "List Nat",
+     retexpr(APB, "FrozenApprovalBallot.__new__", 0, {"tuple.__new__(cls, sorted(approved))": "sortedApproved"}, n_returns=1)),
+    ("C16", "approvalHash", "(hashOfTheTuple : Nat)", "Nat", retexpr(APB, "FrozenApprovalBallot.__hash__", 0, {"tuple.__hash__(self)": "hashOfTheTuple"}, n_returns=1)),
+    ("C16", "approvalFrozen", "(frozenFromSelfNameMeta : Nat)", "Nat",
+     retexpr(APB, "ApprovalBallot.frozen", 0, {"FrozenApprovalBallot(self, name=self.name, meta=self.meta)": "frozenFromSelfNameMeta"}, n_returns=1)),
+    ("C16", "cardinalHash", "(hashOfTheItemSet : Nat)", "Nat", retexpr(CDB, "FrozenCardinalBallot.__hash__", 0, {"hash(frozenset(self.items()))": "hashOfTheItemSet"}, n_returns=1)),
+    ("C16", "cardinalFrozen", "(frozenFromSelf : Nat)", "Nat", retexpr(CDB, "CardinalBallot.frozen", 0, {"FrozenCardinalBallot(self)": "frozenFromSelf"}, n_returns=1)),
+    ("C16", "ordinalHash", "(hashOfTheTuple : Nat)", "Nat", retexpr(ODB, "FrozenOrdinalBallot.__hash__", 0, {"tuple.__hash__(self)": "hashOfTheTuple"}, n_returns=1)),
+    ("C16", "ordinalFrozen", "(frozenFromSelf : Nat)", "Nat", retexpr(ODB, "OrdinalBallot.frozen", 0, {"FrozenOrdinalBallot(self)": "frozenFromSelf"}, n_returns=1)),
     # ---- C15: instance predicates
     # whole functions (initialisation, loop, return): a statement added anywhere in them breaks the leaf
     ("C15", "isExhaustiveFn", None, None,
@@ -945,7 +972,7 @@ def props_with_leaves():
 
 
 # a property's obligations may also rest on the leaf layer of other properties
-DEPENDS = {"C01": ["C02", "C03", "C04", "C05"], "C07": ["C02", "C12"], "C08": ["C13"], "C18": ["C06"]}
+DEPENDS = {"C01": ["C02", "C03", "C04", "C05"], "C07": ["C02", "C12"], "C08": ["C13"], "C18": ["C06"], "C16": ["C13"]}
 
 
 def regenerate(only=None):
